@@ -68,6 +68,17 @@ macro_rules! fail {
 }
 pub(crate) use fail;
 
+/// Run one library call under the work meter (allocator seam).
+macro_rules! metered {
+    ($ctx:expr, $input:expr, $e:expr) => {{
+        let __w = $crate::framework::Work::start();
+        let __r = $e;
+        __w.stop($ctx, $input);
+        __r
+    }};
+}
+pub(crate) use metered;
+
 macro_rules! ensure {
     ($cond:expr, $clause:expr, $($arg:tt)*) => {
         if !($cond) {
@@ -92,6 +103,38 @@ pub struct Ctx {
     pub faults: BTreeMap<&'static str, u64>,
     pub probes: BTreeMap<&'static str, u64>,
     pub trace: Option<Vec<String>>,
+    /// Work meter (allocator seam): bytes allocated inside metered library
+    /// calls, the input bytes those calls were given, and their number.
+    pub lib_alloc: u64,
+    pub lib_input: u64,
+    pub lib_calls: u64,
+}
+
+/// Measures the bytes one library call allocates (see `alloc_meter`).
+pub struct Work {
+    a0: u64,
+}
+
+impl Work {
+    #[inline]
+    pub fn start() -> Work {
+        Work {
+            a0: crate::alloc_meter::work_bytes(),
+        }
+    }
+    /// `input` = the number of bytes the call was given to work on.
+    #[inline]
+    pub fn stop(self, ctx: &mut Ctx, input: usize) {
+        ctx.lib_alloc += crate::alloc_meter::work_bytes().wrapping_sub(self.a0);
+        ctx.lib_input += input as u64;
+        ctx.lib_calls += 1;
+    }
+}
+
+/// The denominator of the work ratio: input bytes plus a fixed allowance per
+/// call and per run (small inputs have fixed costs).
+pub fn work_allowance(ctx: &Ctx) -> u64 {
+    ctx.lib_input + 128 * ctx.lib_calls + 16_384
 }
 
 impl Ctx {
@@ -104,6 +147,9 @@ impl Ctx {
             faults: BTreeMap::new(),
             probes: BTreeMap::new(),
             trace: if trace { Some(Vec::new()) } else { None },
+            lib_alloc: 0,
+            lib_input: 0,
+            lib_calls: 0,
         }
     }
     /// Record an event (goes into the event digest).
@@ -181,6 +227,14 @@ pub trait Property: Sync {
     /// Probes that are expected to be non-zero in the thorough tier.
     fn expected_probes(&self) -> Vec<&'static str> {
         Vec::new()
+    }
+    /// Work budget: a run violates `work-budget-exceeded` when its metered
+    /// library calls allocated more than this factor times their allowance
+    /// (input bytes + 128 bytes per call + 16 KiB).  Calibrated per property at
+    /// >= 32 times the largest ratio seen on the pinned tree (thorough tier),
+    /// so only a blow-up in the order of the input size can trip it.
+    fn work_factor(&self) -> Option<u64> {
+        None
     }
     /// Extra evidence keys (e.g. "not_covered").
     fn extra_evidence(&self) -> Value {
@@ -296,6 +350,25 @@ pub fn exec_one<P: Property>(p: &P, sc: &P::Sc, trace: bool) -> RunOutput {
             }
         }
     };
+    let mut outcome = outcome;
+    if outcome.is_ok() && ctx.lib_calls > 0 {
+        if let Some(f) = p.work_factor() {
+            let allow = work_allowance(&ctx);
+            if ctx.lib_alloc > f.saturating_mul(allow) {
+                outcome = Err(Violation::new(
+                    "work-budget-exceeded",
+                    format!(
+                        "the library allocated {} bytes in {} calls that were given {} bytes of input: {} times the allowance (budget factor {})",
+                        ctx.lib_alloc,
+                        ctx.lib_calls,
+                        ctx.lib_input,
+                        ctx.lib_alloc / allow.max(1),
+                        f
+                    ),
+                ));
+            }
+        }
+    }
     if let Err(v) = &outcome {
         ctx.ev = mix(ctx.ev, hash_str(&v.signature()));
     }
@@ -380,6 +453,11 @@ struct Acc<Sc> {
     sigs: HashSet<u64>,
     sigs_capped: bool,
     batch_digest: u64,
+    lib_alloc: u64,
+    lib_input: u64,
+    lib_calls: u64,
+    /// largest per-run ratio lib_alloc / allowance, in thousandths
+    max_work_ratio_milli: u64,
     found: BTreeMap<String, Found<Sc>>,
     samples: Vec<(u64, Value)>,
 }
@@ -397,6 +475,10 @@ impl<Sc> Acc<Sc> {
             sigs: HashSet::new(),
             sigs_capped: false,
             batch_digest: 0,
+            lib_alloc: 0,
+            lib_input: 0,
+            lib_calls: 0,
+            max_work_ratio_milli: 0,
             found: BTreeMap::new(),
             samples: Vec::new(),
         }
@@ -444,6 +526,18 @@ fn record<P: Property>(
     }
     // order-independent combination of (run, sub, event digest)
     acc.batch_digest ^= splitmix64(mix(mix(run, sub), out.ctx.ev));
+    if out.ctx.lib_calls > 0 {
+        acc.lib_alloc += out.ctx.lib_alloc;
+        acc.lib_input += out.ctx.lib_input;
+        acc.lib_calls += out.ctx.lib_calls;
+        let r = out.ctx.lib_alloc.saturating_mul(1000) / work_allowance(&out.ctx).max(1);
+        if r > acc.max_work_ratio_milli {
+            acc.max_work_ratio_milli = r;
+            if std::env::var_os("PKGSIM_WORK_DEBUG").is_some() {
+                eprintln!("WORK run={} sub={} ratio={}.{:03} alloc={} input={} calls={}", run, sub, r / 1000, r % 1000, out.ctx.lib_alloc, out.ctx.lib_input, out.ctx.lib_calls);
+            }
+        }
+    }
     if debug_runs() {
         println!("RUN {} {} {:016x} steps={}", run, sub, out.ctx.ev, out.ctx.steps);
     }
@@ -701,6 +795,10 @@ pub fn run_batch<P: Property>(p: &P, opts: &Opts) -> BatchReport {
         tot.sigs.extend(a.sigs);
         tot.sigs_capped |= a.sigs_capped;
         tot.batch_digest ^= a.batch_digest;
+        tot.lib_alloc += a.lib_alloc;
+        tot.lib_input += a.lib_input;
+        tot.lib_calls += a.lib_calls;
+        tot.max_work_ratio_milli = tot.max_work_ratio_milli.max(a.max_work_ratio_milli);
         tot.samples.extend(a.samples);
         for (k, f) in a.found {
             match tot.found.get_mut(&k) {
@@ -932,6 +1030,14 @@ pub fn run_batch<P: Property>(p: &P, opts: &Opts) -> BatchReport {
             "distinct_nontrivial_is_lower_bound": tot.sigs_capped,
             "workers": opts.workers,
             "exhaustive": false,
+            "work_meter": {
+                "what": "allocator seam: bytes allocated by the metered library calls of each run, compared with an allowance of (input bytes + 128 bytes per call + 16 KiB); a run whose ratio exceeds budget_factor is the violation work-budget-exceeded",
+                "metered_library_calls": tot.lib_calls,
+                "input_bytes": tot.lib_input,
+                "allocated_bytes": tot.lib_alloc,
+                "largest_run_ratio": (tot.max_work_ratio_milli as f64) / 1000.0,
+                "budget_factor": p.work_factor(),
+            },
         });
         if let (Value::Object(c), Value::Object(extra)) = (&mut coverage, p.extra_evidence()) {
             for (k, v) in extra {
@@ -958,7 +1064,7 @@ pub fn run_batch<P: Property>(p: &P, opts: &Opts) -> BatchReport {
     }
     if !opts.quiet {
         println!(
-            "pkgsim {} done: evaluations={} (sweeps {}) distinct_schedules={} steps={} faults_fired={} wall={:.1}s batch_digest={:016x}",
+            "pkgsim {} done: evaluations={} (sweeps {}) distinct_schedules={} steps={} faults_fired={} wall={:.1}s batch_digest={:016x} max_work_ratio={:.3}",
             id,
             tot.evaluations,
             tot.sweep_evaluations,
@@ -966,7 +1072,8 @@ pub fn run_batch<P: Property>(p: &P, opts: &Opts) -> BatchReport {
             tot.steps,
             tot.faults.values().sum::<u64>(),
             wall,
-            tot.batch_digest
+            tot.batch_digest,
+            (tot.max_work_ratio_milli as f64) / 1000.0
         );
         if opts.tier == Tier::Thorough && !zero_probes.is_empty() {
             println!("warning: probes never hit: {}", zero_probes.join(", "));
